@@ -14,7 +14,7 @@ eval "$DEMO" >/tmp/sc_demo0.log 2>&1; D0=$?
 git apply --exclude='seed/*' seed/patch.diff 2>/tmp/sc_apply.log || patch -p1 -s < seed/patch.diff || { echo "SEED: patch does not apply"; cat /tmp/sc_apply.log; exit 3; }
 go build ./... || { echo "SEED: does not build"; exit 3; }
 if [ -f seed/demo_test.go ] && [ -n "$DEMO_PKG" ]; then mv "$DEMO_PKG/zz_demo_test.go" /tmp/zz_demo_test.go; fi
-go test -vet=off -count=1 ./... >/tmp/sc_test.log 2>&1; T=$?
+go test -vet=off -count=1 $(go list ./... | grep -v /seed) >/tmp/sc_test.log 2>&1; T=$?
 if [ -f /tmp/zz_demo_test.go ] && [ -n "$DEMO_PKG" ]; then mv /tmp/zz_demo_test.go "$DEMO_PKG/zz_demo_test.go"; fi
 eval "$DEMO" >/tmp/sc_demo1.log 2>&1; D1=$?
 echo "SEED: demo without change exit=$D0 (want 0); test suite with change exit=$T (want 0); demo with change exit=$D1 (want !=0)"
